@@ -258,12 +258,12 @@ func init() {
 		// index layer: the shortcut is also the key of the shortcut index.  Every ordered
 		// list of <=3 rules whose patterns spell out or omit the scheme, through
 		// NetworkEngine.MatchAll for URL and hostname requests, against rule.Match.
-		idxRules := []string{"http://example.org^", "https://example.org^", "://example.org^", "ws://example.org^", "example.org^", "||example.org^", "|http://example.org/", "http://sub.example.org^", "p://example.org^"}
+		idxRules := []string{"http://example.org^", "https://example.org^", "://example.org^", "ws://example.org^", "example.org^", "||example.org^", "|http://example.org/", "http://sub.example.org^", "p://example.org^", "example.org.|", ".org.|"}
 		var idxReqs []*rules.Request
 		for _, u := range []string{"http://example.org/", "https://example.org/a", "ws://example.org", "http://sub.example.org/?u=http://example.org/", "http://x.test/?r=https://example.org^", "HTTP://EXAMPLE.ORG/A", "https://Example.Org/", "http://SUB.example.org/?U=HTTP://EXAMPLE.ORG/"} {
 			idxReqs = append(idxReqs, rules.NewRequest(u, "", rules.TypeScript))
 		}
-		for _, h := range []string{"example.org", "sub.example.org", "a.sub.example.org"} {
+		for _, h := range []string{"example.org", "sub.example.org", "a.sub.example.org", "example.org."} {
 			idxReqs = append(idxReqs, rules.NewRequestForHostname(h))
 		}
 		var idxLists [][]int
